@@ -114,8 +114,8 @@ func (memPool *MemPool) AddTransaction(ctx context.Context, tx *wire.MsgTx,
 			// Append conflicting
 			// It is possible tx conflict on more than one input and we don't want duplicates in
 			// the conflicts list.
-			appendIfNotContained(conflicts, list)
-			list = append(list, *txid)
+			conflicts = appendIfNotContained(conflicts, list)
+			memPool.inputs[*outpointHash] = append(list, *txid)
 		} else {
 			// Create new list with only this tx hash
 			list := []bitcoin.Hash32{*txid}
@@ -127,7 +127,7 @@ func (memPool *MemPool) AddTransaction(ctx context.Context, tx *wire.MsgTx,
 }
 
 // Appends the items in add to list if they are not already in list
-func appendIfNotContained(list []bitcoin.Hash32, add []bitcoin.Hash32) {
+func appendIfNotContained(list []bitcoin.Hash32, add []bitcoin.Hash32) []bitcoin.Hash32 {
 	for _, addHash := range add {
 		found := false
 		for _, hash := range list {
@@ -141,6 +141,7 @@ func appendIfNotContained(list []bitcoin.Hash32, add []bitcoin.Hash32) {
 			list = append(list, addHash)
 		}
 	}
+	return list
 }
 
 // Removes a tx hash from the mempool
@@ -168,14 +169,15 @@ func (memPool *MemPool) removeTransaction(hash bitcoin.Hash32) bool {
 			outpointHash := outpoint.OutpointHash()
 			otherHashes, exists := memPool.inputs[*outpointHash]
 			if exists { // It should always exist
-				if len(otherHashes) > 1 {
-					// Remove this outpoint hash from the list
-					for i, otherHash := range otherHashes {
-						if otherHash.Equal(outpointHash) {
-							otherHashes = append(otherHashes[:i], otherHashes[i+1:]...)
-							break
-						}
+				// Remove this tx hash from the list of txs spending the outpoint
+				for i, otherHash := range otherHashes {
+					if otherHash.Equal(&hash) {
+						otherHashes = append(otherHashes[:i], otherHashes[i+1:]...)
+						break
 					}
+				}
+				if len(otherHashes) > 0 {
+					memPool.inputs[*outpointHash] = otherHashes
 				} else {
 					delete(memPool.inputs, *outpointHash)
 				}
